@@ -120,7 +120,7 @@ def check(ctx):
         for with_thr in (False, True):
             I = ctx.interp(order=[("S", "<=", S)], assume=_assume_warm)
             st = State()
-            o = ctx.construct(I, st, cls, **dict(ctor, score_threshold=scalar("thr")) if with_thr else ctor)
+            o = ctx.construct(I, st, cls, **dict(ctor, score_threshold=scalar("thr", labels=("thr",))) if with_thr else ctor)
             stt = _fitted_state(cname, axis, S)
             for k in ("selected_idx_", "X_selected_", "y_selected_", "dSL_"):
                 if k in stt:
@@ -137,13 +137,15 @@ def check(ctx):
             tag = "with threshold" if with_thr else "no threshold"
             bad = _buffer_reads(idx.term)
             ctx.ob("NONINTERFERENCE", f"{cfg}: the chosen candidate does not depend on the requested count or buffer extents ({tag})", "nts" not in idx.labels and not bad, f"labels {sorted(idx.labels)}; whole-buffer reads {bad}: {repr(idx.term)[:200]}", ctx.site(P.method(cls, "_get_best_new_selection")), cfg)
-            if with_thr:
-                continue
             ctx.call_method(I, st, o, "_update_post_selection", X, y, index("l", S))
             heap = st.heap[o.obj.id]
             for a in SINKS:
                 v = heap.get(a)
                 if v is None or v.kind in ("undef", "none"):
+                    continue
+                if with_thr:
+                    # a threshold that is not reached decides nothing: the state after a step is that of a search without one
+                    ctx.ob("NONINTERFERENCE", f"{cfg}.{a} after one step does not depend on the score threshold", "thr" not in v.labels, f"labels {sorted(v.labels)}: {repr(v.term)[:200]}", site_s, cfg)
                     continue
                 exc = EXCEPTIONS.get((pkg, cname, a))
                 bad = _buffer_reads(v.term)
